@@ -10,6 +10,7 @@ AST nodes:
  ["def",f,[ps],fbody,rest]
 """
 import ast as pyast
+import c15lits as L
 
 BINOPS = {"Add": "+", "Sub": "-", "Mul": "*", "FloorDiv": "//", "Mod": "%", "Lt": "<", "Eq": "=="}
 PY_BIN = {pyast.Add: "Add", pyast.Sub: "Sub", pyast.Mult: "Mul", pyast.FloorDiv: "FloorDiv", pyast.Mod: "Mod"}
@@ -360,6 +361,10 @@ def canon(v, depth=0):
         return ["fl", repr(v)]
     if type(v) is str:
         return ["s", v]
+    for base in (int, float, str):
+        # instance of a SUBCLASS of a literal type (IntEnum / StrEnum member, float subclass ...): the exact type counts
+        if isinstance(v, base):
+            return ["sub", "%s.%s" % (type(v).__module__, type(v).__qualname__), canon(base(v), depth + 1)]
     if isinstance(v, (list, tuple)) and depth < 6:
         return ["l" if isinstance(v, list) else "t", [canon(x, depth + 1) for x in v]]
     if isinstance(v, dict) and depth < 6:
@@ -382,6 +387,12 @@ LIST_REFS = ["lst", "d2", "list", "vals"]
 SPACE_REFS = ["sp", "other", "s2"]
 CELL_REFS = ["cf", "cg"]
 BI_INT_OF_LIST = ["sum", "max", "min", "len"]
+# references whose values are instances of subclasses of int / float / str (c15lits), and the "probe" cells that
+# use them in a type-sensitive way.  These names are disjoint from every other name list, so no int-typed formula
+# reads them: they are covered by (P) and the namespace check only (the Gallina values have no strings / enums).
+LIT_REFS = ["hs", "hm", "sg", "rt", "cd", "ni"]
+MODEL_LIT_REFS = ["ghs", "grt", "gcd"]
+PROBE_NAMES = ["pr1", "pr2", "pr3"]
 ARITH = ["Add", "Add", "Sub", "Mul"]
 
 
@@ -615,7 +626,7 @@ class Gen:
 
 
 def info_of(sp):
-    return {"ints": set(sp["_ints"]), "lists": set(sp["_lists"]),
+    return {"ints": set(sp["_ints"]), "lists": set(sp["_lists"]), "lits": dict(sp["_lits"]),
             "cells": dict(sp["_cells"]), "params": len(sp["params"]) if sp.get("params") is not None else 0,
             "minparams": len([p for p in (sp.get("params") or []) if p[1] is None])}
 
@@ -629,7 +640,8 @@ def gen_case(rng, cid, py_builtins, stats):
 
     def new_space(name, parent, bases=(), params=None):
         sp = {"name": name, "parent": parent, "bases": list(bases), "params": params, "refs": [], "cells": [],
-              "_ints": {}, "_lists": {}, "_cells": {}, "_spaces": {}, "_order": [], "_done": False}
+              "_ints": {}, "_lists": {}, "_cells": {}, "_spaces": {}, "_order": [], "_done": False,
+              "_lits": {}, "_probes": {}, "_porder": []}
         spaces.append(sp)
         return len(spaces) - 1
 
@@ -654,6 +666,12 @@ def gen_case(rng, cid, py_builtins, stats):
         nm = r.choice(["gk", "max", "k"])
         mrefs.append([nm, ["int", r.randint(1, 9)]])
         mints[nm] = True
+    mlits = {}
+    if r.random() < 0.35:
+        for nm in r.sample(MODEL_LIT_REFS, r.randint(1, 2)):
+            kind = r.choice(L.KINDS)
+            mrefs.append([nm, ["lit", r.choice(L.BY_KIND[kind])]])
+            mlits[nm] = kind
 
     def children(i):
         return [j for j, s in enumerate(spaces) if s["parent"] == i]
@@ -696,6 +714,9 @@ def gen_case(rng, cid, py_builtins, stats):
             base = spaces[b]
             sp["_ints"].update(base["_ints"]); sp["_lists"].update(base["_lists"])
             sp["_spaces"].update(base["_spaces"])
+            sp["_lits"].update(base["_lits"])
+            for n in base["_porder"]:
+                sp["_probes"][n] = base["_probes"][n]; sp["_porder"].append(n)
             if base.get("_cells_ref"):
                 sp.setdefault("_cells_ref", {}).update(base["_cells_ref"])
             for n in base["_order"]:
@@ -760,6 +781,12 @@ def gen_case(rng, cid, py_builtins, stats):
             sp["refs"].append([n, ["cells", j, cn]])
             sp["_cells_ref"] = sp.get("_cells_ref", {})
             sp["_cells_ref"][n] = spaces[j]["_cells"][cn]
+        # literal-subclass references (an inherited one keeps its kind: inherited probes call its methods)
+        if r.random() < 0.55:
+            for n in r.sample(LIT_REFS, r.randint(1, 3)):
+                kind = sp["_lits"].get(n) or r.choice(L.KINDS)
+                sp["refs"].append([n, ["lit", r.choice(L.BY_KIND[kind])]])
+                sp["_lits"][n] = kind
         # cells
         ncells = r.randint(1, 3) if not sp["bases"] else r.randint(0, 2)
         names = [n for n in CELL_NAMES if n not in sp["_ints"] and n not in sp["_lists"] and n not in sp["_spaces"]
@@ -831,7 +858,97 @@ def gen_case(rng, cid, py_builtins, stats):
                 if cname not in sp["_order"]:
                     sp["_order"].append(cname)
                 break
+        gen_probes(i)
         done.append(i)
+
+    def lit_sources(i):
+        """(expression, kind) of every literal-subclass reference a formula of space i can read: own and inherited
+        references, model-level references, references of child spaces / referenced spaces (ItemSpaces by item access)"""
+        sp = spaces[i]
+        out = [(["name", n], k) for n, k in sorted(sp["_lits"].items())]
+        out += [(["name", n], k) for n, k in sorted(mlits.items())]
+        for n, kd in sorted(ctx_of(i).items(), key=lambda t: t[0]):
+            if kd[0] != "space" or not kd[1].get("lits"):
+                continue
+            inf = kd[1]
+            spx = ["name", n]
+            if inf.get("params"):
+                keyargs = [["int", r.randint(0, 3)] for _ in range(inf["params"])]
+                spx = ["sub", spx, keyargs] if r.random() < 0.5 else ["call", spx, keyargs, [], []]
+            for ln, k in sorted(inf["lits"].items()):
+                out.append((["attr", spx, ln], k))
+        return out
+
+    def lit_use(R, kind, ints):
+        """a type-sensitive expression over the reference expression R (inside the formula grammar)"""
+        tn = ["attr", ["call", ["name", "type"], [R], [], []], "__name__"]
+        iv = ["name", r.choice(ints)] if ints and r.random() < 0.7 else ["int", r.randint(1, 5)]
+
+        def meth(m, *args):
+            return ["call", ["attr", R, m], list(args), [], []]
+        opts = [tn, R]
+        if kind in ("ienum", "senum"):
+            opts += [["attr", R, "name"], ["attr", R, "value"]]
+        if kind == "ienum":
+            opts += [["bin", "Add", R, iv], ["bin", "Mul", ["attr", R, "value"], ["int", 2]]]
+        elif kind == "senum":
+            opts += [meth("lower"), ["bin", "Add", R, ["attr", R, "name"]]]
+        elif kind == "rate":
+            opts += [meth("monthly"), meth("scaled", iv), ["bin", "Mul", R, ["int", 2]]]
+        elif kind == "code":
+            opts += [meth("country"), meth("upper"), ["bin", "Add", R, R], ["sub", R, [["int", 0]]]]
+        elif kind == "num":
+            opts += [meth("double"), meth("bump", iv), ["bin", "Add", R, iv]]
+        return r.choice(opts)
+
+    def gen_probes(i):
+        """cells returning a list [type name of a literal-subclass reference, type-sensitive uses ...]"""
+        sp = spaces[i]
+        srcs = lit_sources(i)
+        if not srcs or r.random() < 0.15:
+            return
+        todo = [(n, None) for n in PROBE_NAMES if n not in sp["_probes"]][:r.randint(1, 2)]
+        if sp["bases"] and sp["_porder"] and r.random() < 0.3:
+            on = r.choice(sp["_porder"])
+            todo.insert(0, (on, sp["_probes"][on]))       # override of an inherited probe, same arity
+        for pname, old in todo:
+            for attempt in range(4):
+                arity = old if old is not None else r.choice([0, 1, 1])
+                params = ["x"][:arity]
+                ints = params + anc_params(i)
+                pool = list(srcs)
+                body_lets = []
+                if r.random() < 0.35:                     # def style: a local alias of a reference
+                    R0, k0 = r.choice(srcs)
+                    body_lets.append(("w", R0))
+                    pool.append((["name", "w"], k0))
+                R1, k1 = r.choice(pool)
+                elems = [["attr", ["call", ["name", "type"], [R1], [], []], "__name__"]]
+                for _ in range(r.randint(1, 4)):
+                    R, k = r.choice(pool)
+                    elems.append(lit_use(R, k, ints))
+                if r.random() < 0.3:
+                    rs = [r.choice(pool)[0] for _ in range(r.randint(1, 3))]
+                    elems.append(["comp", "CList", ["attr", ["call", ["name", "type"], [["name", "e"]], [], []], "__name__"],
+                                  "e", ["list", rs], []])
+                body = ["list", elems]
+                for x, e in reversed(body_lets):
+                    body = ["let", x, e, body]
+                trig = triggers(params, body, all_top_names | set(sp["_ints"]) | set(sp["_lists"]) | set(sp["_spaces"])
+                                | set(sp["_cells"]) | set(sp.get("_cells_ref", {})) | set(sp["_lits"]) | set(PROBE_NAMES)
+                                | set(INT_REFS) | set(LIST_REFS) | set(CELL_NAMES) | set(SPACE_REFS) | set(CELL_REFS)
+                                | set(LIT_REFS), bi)
+                if trig:
+                    for t in trig:
+                        stats["filtered"][t] = stats["filtered"].get(t, 0) + 1
+                    continue
+                sp["cells"].append({"name": pname, "params": [[pn, None] for pn in params], "body": body,
+                                    "style": "def" if body_lets else r.choice(["def", "lambda"]),
+                                    "cached": r.random() < 0.6, "probe": True})
+                sp["_probes"][pname] = arity
+                if pname not in sp["_porder"]:
+                    sp["_porder"].append(pname)
+                break
 
     def chain(j):
         out = []
@@ -898,7 +1015,16 @@ def gen_case(rng, cid, py_builtins, stats):
             add_queries(i, cells, paths_to(i))
     if not queries:
         return None
+    # probe cells (literal-subclass references): one query per access path, beyond the 40 ordinary queries
+    pqueries = []
+    for i, sp in enumerate(spaces):
+        if sp["_porder"]:
+            for path in paths_to(i)[:2]:
+                for pn in sp["_porder"]:
+                    pqueries.append({"path": path, "cell": pn, "args": [r.randint(0, 3) for _ in range(sp["_probes"][pn])]})
     out_spaces = []
     for sp in spaces:
         out_spaces.append({k: v for k, v in sp.items() if not k.startswith("_")})
-    return {"id": cid, "spaces": out_spaces, "mrefs": mrefs, "queries": queries[:40]}
+    lit_refs = len(mlits) + sum(1 for sp in spaces for rf in sp["refs"] if rf[1][0] == "lit")
+    return {"id": cid, "spaces": out_spaces, "mrefs": mrefs, "queries": queries[:40] + pqueries[:12],
+            "probes": sorted({pn for sp in spaces for pn in sp["_porder"]}), "lit_refs": lit_refs}
